@@ -1,5 +1,237 @@
-(* C01 - placeholder while the proofs are being written *)
-From Mk Require Import Lib.Bytes Gen.Alloc Gen.Skeleton.
-Example C01_placeholder : wf_file {| s_imports := []; s_other_types := []; s_other_vals := []; s_tops := [] |} = true.
-Proof. reflexivity. Qed.
-Print Assumptions C01_placeholder.
+(* C01 - Generated mock files are valid Go in their destination package.
+   Only statements; proofs are in Gen/Skeleton_proofs.v.  Model: Gen/Skeleton.v.
+
+   FULL STATEMENT (not provable here, see below):
+     for every loadable package, every selected method-set interface, both built-in templates, every documented
+     template-data option, every formatter and every placement, each written file parses and type-checks
+     together with its destination package.
+
+   What is proved (PARTIAL): the part of "type-checks" that is mockery's own business - NAME BINDING.
+   [testify_skel] / [matryer_skel] are models of the two templates at the level of scoping skeletons (which
+   identifier is declared where, which identifier is used where, which imports the file has); [wf_file] is the
+   executable scoping judgement of Go restricted to skeletons (unique import paths and qualifiers, no unused
+   import, unique top-level names distinct from qualifiers and from the rest of the package, no redeclaration
+   in a block, every use resolves to the intended object and is not captured by an inner declaration).
+   C01_wf_partial_* : for ALL interface data, options and placements that satisfy the guards (= the complement
+   of the known-finding classes) and the obligations of the data model, the model file is well scoped.
+   MISSING: that a well-scoped file is accepted by the Go type checker (expression typing inside the template
+   bodies: assertion syntax, assignability, instantiation) is not formalised - the Go type checker is the
+   oracle on the generated corpus; and the templates are modelled by hand: the harness ties the models to
+   /repo on every run (extracted skeleton = model skeleton, wf_file extracted = true re-checked by the kernel).
+   The template data (names after collision resolution, rendered types, imports) is an INPUT here; that it is
+   faithful is C14's claim, that allocated names are fresh is C15's (used below through Gen/Alloc.v). *)
+From Coq Require Import Permutation.
+From Coq Require Strings.String.
+From Mk Require Import Lib.Bytes Lib.Fresh Gen.Alloc Gen.Alloc_proofs Gen.Skeleton Gen.Skeleton_proofs.
+Local Delimit Scope string_scope with string.
+
+(* ------------------------------------------------------------------ main theorems *)
+(* guards: tf_guards = no parameter named like an identifier of the template in the same function (g_tf_params,
+   g_tf_results), no type / qualifier / type parameter named like a variable of the template or a generated
+   type (g_tf_types, g_tf_tps, g_tf_mock_import), no lower-case type parameter (g_tparams, C14), no parameter
+   capturing a type name of its own signature (g_capture, C14).
+   data_ok / d_tf / file_names_ok: obligations of the data model and of the configuration (distinct resolved
+   names, known types, only needed imports, no clash among generated top-level names): checked on every case. *)
+Theorem C01_wf_partial_testify : forall (o : topts) (f : fdata),
+  data_ok f (skel_ctx (testify_skel o f)) = true ->
+  d_tf f = true ->
+  tf_guards f = true ->
+  file_names_ok (testify_skel o f) = true ->
+  wf_file (testify_skel o f) = true.
+Proof. exact testify_wf. Qed.
+Print Assumptions C01_wf_partial_testify.
+
+Theorem C01_wf_partial_matryer : forall (o : mopts) (f : fdata),
+  data_ok f (skel_ctx (matryer_skel o f)) = true ->
+  d_mt o f (skel_ctx (matryer_skel o f)) = true ->
+  mt_guards o f = true ->
+  file_names_ok (matryer_skel o f) = true ->
+  wf_file (matryer_skel o f) = true.
+Proof. exact matryer_wf. Qed.
+Print Assumptions C01_wf_partial_matryer.
+
+(* C01_self, first half: an in-package registry never holds the destination package itself, whatever is added *)
+Theorem C01_self_inpkg : forall d ops,
+  ~ In d (map ipath (imports (fst (final (init d true) ops)))).
+Proof. exact self_never_imported. Qed.
+Print Assumptions C01_self_inpkg.
+
+(* C01_self, second half (soundness of the judgement for bare type names): in a well-scoped file every bare type
+   name that is not a type parameter is a type of the DESTINATION package or predeclared, and is not an import
+   qualifier - so out of package no type of the source package is mentioned without its qualifier, and a
+   qualifier is always an import of the file. *)
+Theorem C01_bare_types_resolve : forall c env n,
+  resolve_ok c env KPkgType n = true ->
+  (In n (c_types c) \/ In n universe_types) /\ ~ In n (c_quals c).
+Proof. exact bare_types_resolve. Qed.
+Print Assumptions C01_bare_types_resolve.
+Theorem C01_qualifiers_resolve : forall c env q,
+  resolve_ok c env KQual q = true -> In q (c_quals c) /\ lookup q env = None.
+Proof. exact qualifiers_resolve. Qed.
+Print Assumptions C01_qualifiers_resolve.
+
+(* the names the testify template allocates through Scope.AllocateName (Gen/Alloc.v) are pairwise distinct and
+   distinct from every parameter the method scope sees *)
+Theorem C01_allocated_fresh : forall m,
+  forallb (fun n => smem n (mvisible m)) (pnames (mps m)) = true ->
+  nodupb [ret_name m; rf_name m; ok_name m] = true /\
+  disjointb [ret_name m; rf_name m; ok_name m] (pnames (mps m)) = true.
+Proof. exact tf_alloc_fresh. Qed.
+Print Assumptions C01_allocated_fresh.
+
+(* ------------------------------------------------------------------ witnesses: every guard is needed *)
+Definition ty (n : String.string) : tyitems := [IUse KType (B n)].
+Definition par (n e : String.string) (t : tyitems) : pdata :=
+  {| pn := B n; pexp := B e; pty := t; pvariadic := false; pany := false; pnil := false |}.
+Definition res (n : String.string) (t : tyitems) : rdata := {| rn := B n; rty := t; riserr := false; rnil := false |}.
+Definition meth (n : String.string) (ps : list pdata) (rs : list rdata) : mdata :=
+  {| mn := B n; mps := ps; mrs := rs; mvisible := map pn ps ++ map rn rs |}.
+Definition one (tps : list tpdata) (s : String.string) (ms : list mdata) (imps : list (str * str)) (inp : bool)
+           (others : list str) : fdata :=
+  {| f_inpkg := inp; f_srcname := B "src"; f_imports := imps;
+     f_ifaces := [{| ifname := B "W"; ifstruct := B s; iftps := tps; ifms := ms |}];
+     f_other_types := B "W" :: others; f_other_vals := [] |}.
+Arguments ty _%string. Arguments par _%string _%string _. Arguments res _%string _. Arguments meth _%string _ _.
+Arguments one _ _%string _ _ _ _.
+Definition first_method (f : fdata) : mdata :=
+  match f_ifaces f with
+  | i :: _ => match ifms i with m :: _ => m | [] => {| mn := []; mps := []; mrs := []; mvisible := [] |} end
+  | [] => {| mn := []; mps := []; mrs := []; mvisible := [] |}
+  end.
+Definition TO := {| unroll := false |}.
+Definition MO := {| skip_ensure := false; stub_impl := false; with_resets := false |}.
+
+(* everything but the named guard holds, and the file is ill scoped *)
+Definition tf_witness (f : fdata) : bool :=
+  data_ok f (skel_ctx (testify_skel TO f)) && d_tf f && file_names_ok (testify_skel TO f)
+  && negb (tf_guards f) && negb (wf_file (testify_skel TO f)).
+Definition mt_witness (o : mopts) (f : fdata) : bool :=
+  data_ok f (skel_ctx (matryer_skel o f)) && d_mt o f (skel_ctx (matryer_skel o f)) && file_names_ok (matryer_skel o f)
+  && negb (mt_guards o f) && negb (wf_file (matryer_skel o f)).
+
+(* testify: Get(r0 int) int  ->  "r0 redeclared in this block" (DESIGN section 6 row 17) *)
+Theorem C01_tf_params_refuted : exists f,
+  g_tf_params (first_method f) = false /\ tf_witness f = true.
+Proof.
+  exists (one [] "MockW" [meth "Get" [par "r0" "R0" (ty "int")] [res "n" (ty "int")]] [] true []).
+  split; vm_compute; reflexivity.
+Qed.
+Print Assumptions C01_tf_params_refuted.
+
+(* testify: Do() (_c int)  ->  "_c redeclared" in Return *)
+Theorem C01_tf_results_refuted : exists f,
+  g_tf_results (first_method f) = false /\ tf_witness f = true.
+Proof.
+  exists (one [] "MockW" [meth "Do" [] [res "_c" (ty "int")]] [] true []).
+  split; vm_compute; reflexivity.
+Qed.
+Print Assumptions C01_tf_results_refuted.
+
+(* testify: a local type named args (Get(x args, y int)) is captured by the Run wrapper's `args` *)
+Theorem C01_tf_types_refuted : exists f, tf_witness f = true.
+Proof.
+  exists (one [] "MockW" [meth "Get" [par "x" "X" (ty "args"); par "y" "Y" (ty "int")] []] [] true [B "args"]).
+  vm_compute; reflexivity.
+Qed.
+Print Assumptions C01_tf_types_refuted.
+
+(* testify: the interface mentions a type of a package NAMED mock: the hard-coded import collides *)
+Theorem C01_tf_mock_import_refuted : exists f, g_tf_mock_import f = false /\ tf_witness f = true.
+Proof.
+  exists (one [] "MockW" [meth "Get" [par "c" "C" [IUse KQual (B "mock"); IUse KType (B "int")]] []]
+              [(B "example.com/m/ext5/mock", B "mock")] true []).
+  split; vm_compute; reflexivity.
+Qed.
+Print Assumptions C01_tf_mock_import_refuted.
+
+(* C14's classes, needed as guards here too: lower-case type parameter (row 18), parameter capturing a type of
+   its own signature (row 17b) *)
+Theorem C01_tparams_refuted : exists f, tf_witness f = true.
+Proof.
+  exists (one [{| tdecl := B "T"; torig := B "t"; tcon := [IUse KCon (B "any")]; tens := Some (ty "any") |}] "MockW"
+              [meth "Get" [par "x" "X" (ty "t")] []] [] true []).
+  vm_compute; reflexivity.
+Qed.
+Print Assumptions C01_tparams_refuted.
+Theorem C01_capture_refuted : exists f, tf_witness f = true.
+Proof.
+  exists (one [] "MockW" [meth "Get" [par "string" "String" (ty "int"); par "xs" "Xs" (ty "string")] [res "n" (ty "int")]] [] true []).
+  vm_compute; reflexivity.
+Qed.
+Print Assumptions C01_capture_refuted.
+
+(* matryer (row 19): Get(mock int) -> "mock redeclared"; Get(a int, A string) -> duplicate field A;
+   [K comparable] -> ensure line MoqW[comparable]; out-of-package ensure line without the import;
+   a package named mock is captured by the receiver *)
+Theorem C01_mt_params_refuted : exists f, mt_witness MO f = true.
+Proof.
+  exists (one [] "MoqW" [meth "Get" [par "mock" "Mock" (ty "int")] []] [] true []).
+  vm_compute; reflexivity.
+Qed.
+Print Assumptions C01_mt_params_refuted.
+Theorem C01_mt_fields_refuted : exists f,
+  g_mt_fields (first_method f) = false /\
+  wf_file (matryer_skel MO f) = false.
+Proof.
+  exists (one [] "MoqW" [meth "Get" [par "a" "A" (ty "int"); par "A" "A" (ty "string")] []] [] true []).
+  split; vm_compute; reflexivity.
+Qed.
+Print Assumptions C01_mt_fields_refuted.
+Theorem C01_mt_ensure_generic_refuted : exists f,
+  data_ok f (skel_ctx (matryer_skel MO f)) = true /\ file_names_ok (matryer_skel MO f) = true /\
+  forallb (fun i => forallb (g_mt_ensure_arg (iftps i)) (iftps i)) (f_ifaces f) = false /\
+  wf_file (matryer_skel MO f) = false.
+Proof.
+  exists (one [{| tdecl := B "K"; torig := B "K"; tcon := [IUse KCon (B "comparable")]; tens := Some (ty "comparable") |}]
+              "MoqW" [meth "Get" [par "k" "K" (ty "K")] []] [] true []).
+  repeat split; vm_compute; reflexivity.
+Qed.
+Print Assumptions C01_mt_ensure_generic_refuted.
+Theorem C01_mt_ensure_import_refuted : exists f, g_mt_ensure_import f = false /\ mt_witness MO f = true.
+Proof.
+  exists (one [] "MoqW" [meth "Ping" [] [res "err" (ty "error")]] [] false []).
+  split; vm_compute; reflexivity.
+Qed.
+Print Assumptions C01_mt_ensure_import_refuted.
+Theorem C01_mt_types_refuted : exists f, mt_witness {| skip_ensure := true; stub_impl := false; with_resets := false |} f = true.
+Proof.
+  exists (one [] "MoqW" [meth "Get" [par "c" "C" [IUse KQual (B "mock"); IUse KType (B "int")]] []]
+              [(B "example.com/m/ext5/mock", B "mock")] true []).
+  vm_compute; reflexivity.
+Qed.
+Print Assumptions C01_mt_types_refuted.
+
+(* regression lemma for fixes/c01-matryer-fmt: with the fmt import the unchanged template added, no matryer
+   file is well scoped (the import is never used) *)
+Definition matryer_skel_with_fmt (o : mopts) (f : fdata) : skeleton :=
+  {| s_imports := imports_of (matryer_reg_with_fmt f);
+     s_other_types := f_other_types f; s_other_vals := f_other_vals f; s_tops := s_tops (matryer_skel o f) |}.
+Theorem C01_fmt_import_unused : exists f,
+  wf_file (matryer_skel MO f) = true /\ wf_file (matryer_skel_with_fmt MO f) = false.
+Proof.
+  exists (one [] "MoqW" [meth "Get" [par "path" "Path" (ty "string")] [res "err" (ty "error")]] [] true []).
+  split; vm_compute; reflexivity.
+Qed.
+Print Assumptions C01_fmt_import_unused.
+
+(* ------------------------------------------------------------------ non-vacuity *)
+(* a generic interface with a variadic method, a foreign type, parameters named like harmless template locals
+   (run, args, ret) and like the allocated names (ok, returnFunc): all hypotheses hold, for every option *)
+Definition demo : fdata :=
+  one [{| tdecl := B "T"; torig := B "T"; tcon := [IUse KCon (B "any")]; tens := Some (ty "any") |}] "MockW"
+      [meth "Get" [par "ok" "Ok" (ty "T"); par "ret" "Ret" [IUse KQual (B "http"); IUse KType (B "string")];
+                   {| pn := B "args"; pexp := B "Args"; pty := ty "int"; pvariadic := true; pany := false; pnil := true |}]
+            [res "returnFunc" (ty "T"); res "err" (ty "error")];
+       meth "Close" [] []]
+      [(B "net/http", B "http")] true [].
+Example C01_guards_satisfiable_testify :
+  forallb (fun o => data_ok demo (skel_ctx (testify_skel o demo)) && d_tf demo && tf_guards demo
+                    && file_names_ok (testify_skel o demo) && wf_file (testify_skel o demo))
+          [{| unroll := true |}; {| unroll := false |}] = true.
+Proof. vm_compute. reflexivity. Qed.
+Example C01_guards_satisfiable_matryer :
+  forallb (fun o => data_ok demo (skel_ctx (matryer_skel o demo)) && d_mt o demo (skel_ctx (matryer_skel o demo))
+                    && mt_guards o demo && file_names_ok (matryer_skel o demo) && wf_file (matryer_skel o demo))
+          [{| skip_ensure := false; stub_impl := false; with_resets := false |};
+           {| skip_ensure := true; stub_impl := true; with_resets := true |}] = true.
+Proof. vm_compute. reflexivity. Qed.
